@@ -8,6 +8,9 @@
 #define DEFINE_CHAR_TABLE
 
 #include "uncrustify.h"
+#ifdef UNCRUSTIFY_VERIF
+#include "verif_hooks.h"
+#endif
 
 #include "align/align.h"
 #include "align/nl_cont.h"
@@ -1972,6 +1975,9 @@ static void uncrustify_start(const deque<int> &data)
 {
    // Parse the text into chunks
    tokenize(data, Chunk::NullChunkPtr);
+#ifdef UNCRUSTIFY_VERIF
+   verif::dump_tok();
+#endif
    PROT_THE_LINE
 
    cpd.unc_stage = unc_stage_e::HEADER;
@@ -2101,6 +2107,19 @@ void uncrustify_file(const file_mem &fm, FILE *pfout, const char *parsed_file,
          count_column = 1;
       }
    }
+
+#ifdef UNCRUSTIFY_VERIF
+   if (verif::codec_only())
+   {
+      verif::codec_passthrough(data, pfout);
+
+      if (!defer_uncrustify_end)
+      {
+         uncrustify_end();
+      }
+      return;
+   }
+#endif
 
    uncrustify_start(data);
    dump_step(dump_file, "After uncrustify_start()");
